@@ -334,6 +334,8 @@ def main(tier, replay=None):
                     where = "item_at_cursor(file %s, line %s, character %s)" % (files.get(w[2], w[2]), w[3], w[4])
                 elif w[:2] == ["Q", "A"]:
                     where = "find_all_references(entity id %s)" % w[2]
+                elif w[:2] == ["Q", "D"]:
+                    where = "AnyEnt::declaration() of entity id %s" % w[2]
                 else:
                     where = "well-formedness of the event forest"
                 res.violation("correspondence broken in project %s (%s): %s: implementation `%s`, Coq model on the extracted event forest `%s`" % (
